@@ -30,7 +30,7 @@ def gen(rng, tier):
     cases = []
     NS = [0, 1, 2, 3, 4]
     ds = G.all_dfas(1, 'a') + G.all_dfas(2, 'a') + rng.sample(G.all_dfas(2, 'ab'), 30 if quick else 64)
-    ds += [G.random_dfa(rng, rng.randint(1, 6), rng.choice(['a', 'ab', 'abc', ''])) for _ in range(60 if quick else 1500)]
+    ds += [G.random_dfa(rng, rng.randint(1, 6), rng.choice(['a', 'ab', 'abc', '', '01', 'a_', 'ε1'])) for _ in range(60 if quick else 1500)]
     for d in ds:
         cases.append({'kind': 'dfa', 'X': d, 'ns': NS})
     ns = rng.sample(G.all_nfas(2, 'a'), 80 if quick else 1024)
@@ -41,9 +41,9 @@ def gen(rng, tier):
     if quick:
         rs = rng.sample(rs, 90)
     rs += [G.random_re(rng, rng.randint(2, 5), 2) for _ in range(50 if quick else 1500)]
-    for r in rs:
+    for i, r in enumerate(rs):
         if G.re_nodes(r) <= 14:
-            cases.append({'kind': 're', 'X': r, 'ns': NS})
+            cases.append({'kind': 're', 'X': G.relabel_re(r, G.CODE_SETS[i % len(G.CODE_SETS)]), 'ns': NS})
     tms = C11.gen(rng, tier)
     for t in (rng.sample(tms, 80) if quick else tms[:1500]):
         t = dict(t)
@@ -61,6 +61,16 @@ def gen(rng, tier):
         lim = min(c['limit'], 5) if eps_push else c['limit']
         cases.append({'kind': 'pda', 'X': c['P'], 'limit': lim, 'ns': ([0, 1, 2, 3] if len(c['P']['Sigma']) <= 1 else [0, 1, 2]) if not eps_push else [0, 1, 2][:3 - len(c['P']['Sigma']) + 1]})
     return cases
+
+
+def _re_codes(t):
+    if t[0] == 's':
+        return {t[1]}
+    out = set()
+    for x in t[1:]:
+        if isinstance(x, list):
+            out |= _re_codes(x)
+    return out
 
 
 def _filter(accept, sigma, n):
@@ -105,7 +115,7 @@ def observe(c):
             f = safe(_filter, lambda w: tm_accepts_word(T, w, steps) is True, c['X']['Sigma'], n, timeout=20)
             out.append([sorted(x[1]) if ok(x) else None for x in (e, g, f)])
         return {'runs': out}
-    sigma = c['X']['Sigma'] if k != 're' else ['a', 'b']
+    sigma = c['X']['Sigma'] if k != 're' else sorted(set(conv.SYMS[i] for i in _re_codes(c['X'])) | {'a'})
     try:
         for n in c['ns']:
             e = safe(enum, X, n, timeout=20)
@@ -181,7 +191,7 @@ def nontrivial(c, o):
     if not last:
         return False
     x = c['X']
-    sigma = ['a', 'b'] if c['kind'] == 're' else x['Sigma']
+    sigma = ['a', 'b', 'c'] if c['kind'] == 're' else x['Sigma']
     n = (x['enum'][-1][0] if c['kind'] == 'tm' else c['ns'][-1])
     total = sum(len(sigma) ** i for i in range(n + 1))
     return 0 < len(last) < total
